@@ -1044,6 +1044,21 @@ pub async fn bankruptcy(w: &mut World, m: &mut Mon, r: &mut R, lev: &Lev, g: usi
         let i = ix::configure_bank(w.groups[g].key, admin.pubkey(), w.banks[db].key, opt);
         let _ = w.exec(m, &[i], &[&admin]).await;
     }
+    {
+        // the same settlement with the bank's liquidity vault replaced by somebody's own token account
+        // of the same mint (the insurance payout would go there): simulated, judged if accepted
+        let admin = clone_kp(&w.groups[g].admin);
+        let mut i = w.ix_bankruptcy(lev.acct, db, admin.pubkey());
+        let lv = w.banks[db].k.lv;
+        let foreign = w.users[w.accts[lev.acct].user].tas[w.banks[db].mint];
+        for mt in i.accounts.iter_mut() {
+            if mt.pubkey == lv {
+                mt.pubkey = foreign;
+            }
+        }
+        let o = w.probe(m, &[i], &[&admin]).await;
+        m.r.count(if o.ok() { "scen.bankruptcy_with_foreign_liquidity_vault_accepted" } else { "scen.bankruptcy_with_foreign_liquidity_vault_refused" });
+    }
     let i = w.ix_bankruptcy(lev.acct, db, signer.pubkey());
     let o = w.exec(m, &[i], &[&signer]).await;
     if !o.ok() {
